@@ -33,7 +33,7 @@ func init() {
 		MinEvals:    floor(7000, 50000),
 		MinDistinct: floor(3000, 15000),
 		RequiredCells: func(string) []string {
-			cells := []string{"A/inside", "A/before-nbf", "A/after-exp", "A/on-bound", "A/decoded", "A/constructed", "A/delegation", "A/invocation", "A/exp<nbf", "A/far-future-bound", "A/decoded-from-signed-payload",
+			cells := []string{"A/zones", "B/long-chain", "A/inside", "A/before-nbf", "A/after-exp", "A/on-bound", "A/decoded", "A/constructed", "A/delegation", "A/invocation", "A/exp<nbf", "A/far-future-bound", "A/decoded-from-signed-payload",
 				"B/all-valid", "B/expired@inv"}
 			for _, pos := range []string{"first", "middle", "last", "only"} {
 				cells = append(cells, "B/expired@"+pos, "B/notyet@"+pos)
@@ -46,6 +46,8 @@ func init() {
 var c04Offsets = []time.Duration{-10 * 365 * 24 * time.Hour, -24 * time.Hour, -time.Hour, time.Hour, 24 * time.Hour, 10 * 365 * 24 * time.Hour}
 
 var c04Probes = []time.Duration{-100 * 365 * 24 * time.Hour, -time.Hour, -time.Second, -(time.Second - 1), -time.Microsecond, -1, 0, 1, time.Microsecond, time.Second - 1, time.Second, time.Hour, 100 * 365 * 24 * time.Hour}
+
+var c04Zones = []*time.Location{time.FixedZone("east", 14*3600), time.FixedZone("west", -12*3600+1800)}
 
 type validator interface {
 	IsValidAt(time.Time) bool
@@ -71,6 +73,16 @@ func c04Probe(w *mon.W, kind, state string, tk validator, nbf, exp *time.Time, d
 			t := b.Add(d)
 			got := tk.IsValidAt(t)
 			w.Eval(1)
+			// the same instant in other representations (other locations) must get the same answer
+			for zi, z := range c04Zones {
+				if g2 := tk.IsValidAt(t.In(z)); g2 != got {
+					w.Violate(fmt.Sprintf("A/representation-dependent/%s/%s", kind, state),
+						fmt.Sprintf("%s %s: IsValidAt(%s) = %v but = %v for the same instant in location %s", state, kind, t.UTC().Format(time.RFC3339Nano), got, g2, z),
+						map[string]any{"token": desc, "probe": t.UTC().Format(time.RFC3339Nano), "zone": zi})
+				}
+				w.Eval(1)
+			}
+			w.Cover("A/zones")
 			// classify against the reported window
 			before := nbf != nil && t.Before(*nbf)
 			after := exp != nil && t.After(*exp)
@@ -330,6 +342,10 @@ func runC04(w *mon.W) {
 	total := w.Share(w.Pick(3000, 60000))
 	for it := 0; it < total; it++ {
 		n := 1 + r.IntN(w.Pick(5, 7))
+		if it%12 == 5 {
+			n = 9 + r.IntN(32)
+			w.Cover("B/long-chain")
+		}
 		s := chain.FullConformant(r, n, 5)
 		nbad := []int{0, 1, 1, 1, 2, 3}[r.IntN(6)]
 		var offs []string
